@@ -439,10 +439,13 @@ func c09NewPending(t *core.T, wd *sim.World, m *pendModel, v *sim.View) *wire.Ms
 	}
 	var cands []*sim.Out
 	kind := t.R.Pick(5, 3, 3) // wallet coin spend, stranger→wallet, child of pending
+	// some wallet-coin spends conflict with a transaction that is already pending (a second spender of
+	// the same wallet coin, as after a reorganisation returned the first one to the pending set)
+	conflict := kind == 0 && t.R.Chance(15)
 	switch kind {
 	case 0, 1:
 		for _, o := range v.SortedOuts() {
-			if o.Spent || !o.HasHash || o.Value < 1000 || usedByPending[o.OP] || !v.Mature(o) {
+			if o.Spent || !o.HasHash || o.Value < 1000 || usedByPending[o.OP] != conflict || !v.Mature(o) {
 				continue
 			}
 			_, mine := owned[o.Hash]
@@ -471,6 +474,9 @@ func c09NewPending(t *core.T, wd *sim.World, m *pendModel, v *sim.View) *wire.Ms
 		return cands[i].OP.Index < cands[j].OP.Index
 	})
 	in := cands[t.R.Intn(len(cands))]
+	if conflict {
+		t.Count("pending_transactions_conflicting_with_a_pending_one", 1)
+	}
 	val := in.Value - in.Value/100
 	ins := []wire.OutPoint{in.OP}
 	if kind == 0 && t.R.Chance(45) {
